@@ -133,3 +133,25 @@ claim('C02',
       "refinement - is a limit statement about runs and is NOT decided.",
       "Trusted: exact truncated-series arithmetic; metric table from vector calculus. Convergence rate, stability, solver accuracy not decided.",
       "symbolic stencil extraction + exact truncated Laurent-series (truncation-limit) analysis against a metric-table oracle", "DESIGN.md 5 C02")
+
+# ---- rules added after the first complete pass (DESIGN.md 9.7): appended to the claim texts
+_ADDED = {
+    'C01': " Added: R5 no-flux closure, R8 explicit solver step (interior = old + dt*RHS, ghost layer re-imposed, arguments unwritten); every cell of concrete small grids (1..7 cells, mixed shapes) in the thorough tier.",
+    'C02': " Added: K3 boundary-face flux consistency - the flux functional of every boundary face has the leading order of the interior-face functional expanded about the same point (independent expansion symbols for indices anchored at the opposite end of an axis).",
+    'C03': " Added: every single-flag periodic configuration; an integer-dtype pass (nothing may be truncated); plotprofile must leave the value array unwritten.",
+    'C04': " Added: S8 boundary data edited through the public setters reach the solver face by face; S9 source builders contribute exactly beta_P / gamma_P.",
+    'C05': " Added: E4u/E5u TVD identities with an explicit upwind-direction field; concrete small grids and an integer-dtype pass.",
+    'C06': " Added: concrete small grids (down to one cell per axis) in both tiers.",
+    'C08': " Added: axis relabelling of ghost values and boundary rows also under periodic flags.",
+    'C09': " Added: P4e solveExplicitPDE entered dirty keeps the invariant for its input; P5 for every flag valuation with a stale cache; P1 also switches periodic off; P8u update_value / value setter leave no shared storage.",
+    'C10': " Added: concrete 1..7-cell grids and integer-dtype face arrays.",
+    'C11': " Added: W9 arguments unwritten; an integer-dtype pass through the real CellVariable constructor.",
+    'C12': " Added: T3 covers the RHS vector (views share storage with their source for effect tracking).",
+    'C13': " Added: F8 _fsign is bounded away from zero (not merely non-zero).",
+    'C14': " Added: scalar operands 0 and 2 next to the symbolic scalar; branches on a symbolic scalar are explored path by path with the path condition substituted.",
+    'C15': " Added: every builder taking a CellVariable is also run on a variable whose change-tracking flags are raised (no rebinding, no recomputed ghosts, flags kept).",
+    'C16': " Added: L8f every branch of a pure dispatcher forwards identical arguments; L9 documented array forms on meshes with one cell along some axes; L3 the radial-periodic refusal is repeatable; L4 singleton-axis shapes.",
+}
+for _pid, _txt in _ADDED.items():
+    if _pid in CHECKS:
+        CHECKS[_pid]['level_claimed']['text'] += _txt
